@@ -3,6 +3,11 @@
 import json, os, sys
 HERE = os.path.dirname(os.path.abspath(__file__))
 CLAIMED = {
+ "C03": ("model_checking",
+         "reflective exhaustive enumeration (every concrete class x every settable attribute x >=2 domain values) and all ordered attribute pairs, each history executed on the real library with re-open before / between / after; live, re-open and raw-HDF5 observers",
+         "Targets: one populated instance of each of the 65 concrete entity classes (discovered reflectively; a class without fixture is a harness error), their types, the project header, concatenated holes / data / property groups, colour and value maps. Histories: assign one attribute (as created, and on the entity re-loaded r+), all ordered pairs of attributes of one entity, with re-open between the two; oracle cascade: later reader can read, reader sees the assigned value, live getter == re-opened getter for every attribute of the entity, raw stored value == assigned.",
+         "Coupled attributes (Grid2D dip/vertical, end_of_hole after surveys), views sharing a stored field, derived getters and refused assignments are excluded as listed in the evidence; pairs use the first domain value of each attribute.",
+         "DESIGN.md §4 C03"),
  "C17": ("model_checking",
          "exhaustive enumeration of grid shapes x cell sizes x origins x rotations x dips, octree dimensions, drape layouts and all part labellings, plus explicit-state enumeration of all setter/read/re-open/copy sequences (depth<=2/3) per grid class, against reference formulas written from the format documentation",
          "Static: every configuration of the lattice is built on the real library and its centroids / cells / parts are compared with formulas from docs/content/geoh5_format/analyst/objects.rst, live and after a fresh re-open. Cache model checking: every sequence of geometry setters, reads, re-opens and copies up to the stated length must end with centroids equal to the formula on the current attributes (a setter that forgets to invalidate the cache is a state-dependent failure the sequence finds).",
